@@ -66,10 +66,11 @@ class FS:
         self.reads = []
 
     def isfile(self, p):
-        return p in self.files
+        return os.fspath(p) in self.files
 
     def open(self, p, mode="r", *a, **k):
         fs = self
+        p = os.fspath(p)
         if "w" in mode or "a" in mode or "+" in mode:
             class W:
                 def __enter__(s):
@@ -117,6 +118,9 @@ def install(fs, docs):
 
 
 # ------------------------------------------------------------- document gen
+APP1 = "org.example.watcher-1"  # application names may contain dots; the user file is <config dir>/<appname>/<appname>.toml
+
+
 def gen_doc(x, pfx, levels, tkind):
     """a nested dict whose shape is chosen by forking.  levels: keys per nesting level."""
     nkeys = levels[0]
@@ -172,14 +176,14 @@ def h_overlay(x, levels, second, tkind=1):
     U1 = gen_doc(x, "u", levels, tk)
     U2 = gen_doc(x, "w", [1] + [1] * (len(levels) - 1), tk) if second == "otherfile" else None
     docs = {"DEFAULT": lambda: clone(D0), "USER1": lambda: clone(U1), "USER2": (lambda: clone(U2)), "": (lambda: tk())}
-    files = {"/cfg/app1/app1.toml": "USER1"}
+    files = {"/cfg/%s/%s.toml" % (APP1, APP1): "USER1"}
     if second == "emptyfile":
         files["/cfg/app2/app2.toml"] = ""  # an existing user file of length 0
     if second == "otherfile":
         files["/cfg/app2/app2.toml"] = "USER2"
     fs = FS(files)
     install(fs, docs)
-    r1 = CFG.load_config_toml("app1", "DEFAULT")
+    r1 = CFG.load_config_toml(APP1, "DEFAULT")
     obl = [("effective-config-is-overlay", sym_equal(plain(r1), plain(overlay(D0, U1))))]
     obl.append(("existing-user-file-not-written", not fs.writes))
     r2 = CFG.load_config_toml("app2", "DEFAULT")
@@ -261,10 +265,10 @@ def h_real(x):
     os.environ["XDG_CONFIG_HOME"] = tmp
     try:
         importlib.reload(RC)
-        cdir = RC.dirs.get_config_dir("app1")
-        path = os.path.join(cdir, "app1.toml")
+        cdir = RC.dirs.get_config_dir(APP1)
+        path = os.path.join(cdir, APP1 + ".toml")
         open(path, "w").write(user)
-        r = RC.load_config_toml("app1", dflt)
+        r = RC.load_config_toml(APP1, dflt)
         want = overlay(plain_toml(tomlkit.parse(dflt)), plain_toml(tomlkit.parse(user)))
         obl = [("real-overlay", plain_toml(r) == want), ("real-user-file-untouched", open(path).read() == user)]
         r2 = RC.load_config_toml("app2", dflt)
